@@ -64,3 +64,80 @@ def handleMatch : List String → Option String
   | _ => none
 
 end WcModel.Driver
+
+namespace WcModel.Driver
+open WcModel.Proto
+
+/-- does the regex consume a character through something other than a written literal or a
+    separator class?  (look-aheads consume nothing and are ignored) -/
+def reIsWild : Re → Bool
+  | .any => true
+  | .cls neg items => neg || !(items.all (fun it => match it with
+      | .chr c _ => c == '/' || c == '\\'
+      | _ => false))
+  | .cat a b => reIsWild a || reIsWild b
+  | .alt a b => reIsWild a || reIsWild b
+  | .grp r => reIsWild r
+  | .cap r => reIsWild r
+  | .gcap r => reIsWild r
+  | .opt r => reIsWild r
+  | .star _ r => reIsWild r
+  | .plus r => reIsWild r
+  | .rep _ _ r => reIsWild r
+  | .flags _ _ r => reIsWild r
+  | _ => false
+
+/-- does the regex consume nothing at all (only look-aheads / anchors)? -/
+def reIsGuard : Re → Bool
+  | .eps => true
+  | .look _ _ => true
+  | .bos => true
+  | .eos => true
+  | .cat a b => reIsGuard a && reIsGuard b
+  | .grp r => reIsGuard r
+  | _ => false
+
+def itemKind : Item → Char
+  | .re r => if reIsGuard r then '_' else if reIsWild r then 'W' else 'L'
+  | .empty => '_'
+  | .bar => '|'
+  | .group _ _ _ => 'G'
+  | .invOpen _ _ => 'I'
+  | .ph _ => '_'
+  | .closed _ _ _ => '_'
+
+def isSepItem (win : Bool) : Item → Bool
+  | .re r => r == Frag.sepPlus win || r == Frag.globstarDiv win
+  | _ => false
+
+/-- kinds of the first two consuming items of every segment of the emitted item list -/
+def segStarts (win : Bool) : List Item → Bool → List (List Char) → List (List Char)
+  | [], _, acc => acc.reverse
+  | x :: xs, atStart, acc =>
+    if isSepItem win x then segStarts win xs true acc
+    else
+      let k := itemKind x
+      if k == '_' then segStarts win xs atStart acc
+      else if atStart then segStarts win xs false ([k] :: acc)
+      else match acc with
+        | [a] :: rest => segStarts win xs false ([a, k] :: rest)
+        | _ => segStarts win xs false acc
+
+/-- `segstarts <flags> <isBytes> <pattern>` → `ok <k1k2,k1k2,…>`: for every segment of the regex
+    the faithful port emits, the kind (L literal, W wildcard, G extended group, I negated group)
+    of its first and second consuming item — the trigger signature of the start-state findings
+    (D4: `W` then non-`L` in path mode; D5: a leading `G`). -/
+def handleSegStarts : List String → Option String
+  | [fl, b, p] => do
+    let flags ← fl.toNat?
+    let isBytes ← decBool b
+    let pat ← decStr p
+    match parsePattern flags isBytes pat with
+    | .error .noAbsolute => pure "err ValueError"
+    | .ok parsed =>
+      let cfg := Cfg.ofFlags isBytes (Flags.ofNat flags)
+      let ks := segStarts cfg.win parsed.items true []
+      pure ("ok " ++ ",".intercalate (ks.map String.ofList))
+  | _ => none
+
+end WcModel.Driver
